@@ -69,6 +69,7 @@ func (P) Facts() []core.Fact {
 		{Name: "maxBlockWeight", Value: int64(blockchain.MaxBlockWeight)},
 		{Name: "maxBlockSigOpsCost", Value: int64(blockchain.MaxBlockSigOpsCost)},
 		{Name: "blockHeaderLen", Value: int64(wire.MaxBlockHeaderPayload)},
+		{Name: "serializedHeightVersion", Value: int64(blockchain.VerifC13SerializedHeightVersion())},
 	}
 	for k, v := range txscript.VerifC13Consts() {
 		fs = append(fs, core.Fact{Name: k, Value: v})
@@ -386,6 +387,30 @@ func exec1(op string, a []string) string {
 			_ = i
 		}
 		return "r=" + hex.EncodeToString(r1[:]) + " w=" + hex.EncodeToString(w1[:]) + " again=" + b01(again)
+	case "radd":
+		n := atou(a[0])
+		var roots []chainhash.Hash
+		for _, x := range splitList(a[1], ",") {
+			var h chainhash.Hash
+			copy(h[:], unhx(x))
+			roots = append(roots, h)
+		}
+		var h chainhash.Hash
+		copy(h[:], unhx(a[2]))
+		out, n2 := blockchain.VerifC13RollingAdd(n, roots, h)
+		parts := make([]string, len(out))
+		for i := range out {
+			parts[i] = hex.EncodeToString(out[i][:])
+		}
+		return fmt.Sprintf("n=%d roots=%s", n2, strings.Join(parts, ","))
+	case "shh":
+		return b01(blockchain.ShouldHaveSerializedBlockHeight(&wire.BlockHeader{Version: int32(atoi(a[0]))}))
+	case "smallint":
+		op := byte(atou(a[0]))
+		if !txscript.IsSmallInt(op) {
+			return "is=0"
+		}
+		return fmt.Sprintf("is=1 as=%d", txscript.AsSmallInt(op))
 	case "hmb":
 		var l, r chainhash.Hash
 		copy(l[:], unhx(a[0]))
